@@ -564,8 +564,44 @@ def r2_unpublished(ctx):
     ctx.check(R, "operation-loop-examined", seen_op, "the loop that fills `paths` is one of the examined consumers of router.endpoints(..)", g, nontrivial=False)
     # who reads `visible`
     readers = {}
+
+    def only_carries_it_over(f):
+        """Every read of `.visible` in f is the `visible` operand of an ApiEndpoint aggregate: struct update syntax (`Self { deprecated, ..self }`)
+        copies the field into the same field of the new value -- the function does not look at it."""
+        n_all, n_carry = 0, 0
+
+        def count(o):
+            n = 0
+            if isinstance(o, dict):
+                if "l" in o and "p" in o and isinstance(o["p"], list) and any(isinstance(e, dict) and e.get("n") == "visible" for e in o["p"]):
+                    n += 1
+                for v in o.values():
+                    n += count(v)
+            elif isinstance(o, list):
+                for v in o:
+                    n += count(v)
+            return n
+        for blk in f.blocks:
+            if blk["cleanup"]:
+                continue
+            for st in blk["st"]:
+                if st["s"] != "assign":
+                    continue
+                c = count(st["rv"])
+                n_all += c
+                rv = st["rv"]
+                if c and rv["rv"] == "agg" and rv.get("adt") == EP and "visible" in (rv.get("fields") or []):
+                    op = rv["ops"][rv["fields"].index("visible")]
+                    if count(op) == 1 and c == 1:
+                        n_carry += 1
+            t = blk["term"]
+            if t["t"] == "call":
+                n_all += count(t["args"])
+            elif t["t"] == "switch":
+                n_all += count(t["discr"])
+        return n_all > 0 and n_all == n_carry
     for f, bb, owner in field_reads(ds, m.tw, "visible"):
-        if owner == EP:
+        if owner == EP and not only_carries_it_over(f):
             readers.setdefault(root_of(ds, f).id, (f, bb))
     for rid, (f, bb) in sorted(readers.items()):
         ok = rid in VISIBLE_READERS
@@ -1433,4 +1469,4 @@ SELFTEST = [
          "let fabricated = openapiv3::ReferenceOr::<openapiv3::Response>::Reference { reference: format!(\"#/components/responses/{}\", type_name) };\n                    let reference = &fabricated;"))],
      "expect": ["C06.R4"], "why": "the 4xx/5xx $ref is formatted from the Rust type name instead of being the stored entry's reference: it can name a response that is not in components.responses"},
 ]
-LEVEL_TEXT += " Also (R8): operations are documented under OpenAPI path templates: the endpoint iterator never renders a variable with its `:.*` pattern."
+LEVEL_TEXT += " Also (R8): operations are documented under OpenAPI path templates: the endpoint iterator never renders a variable with its `:.*` pattern. Also (R9 = C07.R9): an operation's error-response reference is formatted from the very name its response is stored under."
